@@ -282,7 +282,19 @@ def corr_shard(kind, seed, n, compare_model=True, extra_env=None, lines=None):
     r = CorrResult()
     if lines is None:
         del GEN_PANICS[:]
-        lines = gen_cases(kind, seed, n, extra_env)
+        try:
+            lines = gen_cases(kind, seed, n, extra_env)
+        except RuntimeError as e:
+            # generators that build their expectations with the real code (pipeline, e2eref, …) check their own
+            # assumptions about it (e.g. "a data-phase datagram does not change the template cache"); when the code under
+            # test breaks one of them the generator stops: that is a finding about the code, replayable by generating again
+            msg = str(e)
+            key = [l for l in msg.split("\n") if l.startswith("panic:") or "corr gen" in l]
+            r.evaluations += 1
+            r.oracle_fail.append({"kind": kind, "seed": seed, "session": ["gen %s %d %d" % (kind, seed, n)], "impl": "generator stopped", "env": extra_env,
+                                  "verdict": "fail:generator the case generator, which runs the real code to build its expectations, stopped on its own consistency check: "
+                                             + " | ".join(key)[:400]})
+            return r
         for g in GEN_PANICS[:3]:
             r.oracle_fail.append(dict(g, seed=seed))
     go = run_go(kind, lines, extra_env=extra_env)
@@ -384,8 +396,20 @@ def verdict_class(v):
     return v.split(" ")[0]
 
 
+def gen_fails(line, env=None):
+    """`gen <kind> <seed> <n>`: does the generator still stop?"""
+    f = line.split()
+    try:
+        gen_cases(f[1], int(f[2]), int(f[3]), env)
+        return False
+    except RuntimeError:
+        return True
+
+
 def fails_again(kind, session, want=None, want_out=None, env=None):
     """the last line of the session still fails — in the same way (same verdict class, same implementation output)"""
+    if session and session[-1].startswith("gen "):
+        return gen_fails(session[-1], env)
     go = run_go(kind, session, extra_env=env)
     if go[-1] is None or not go[-1][1].startswith("fail"):
         return False
@@ -435,6 +459,11 @@ def do_replay(path):
         if "runner" in c:
             RUNNERS[c["kind"]] = c["runner"]
     lines = d["session"]
+    if lines and lines[-1].startswith("gen "):
+        bad = gen_fails(lines[-1], d.get("env"))
+        print("case :", lines[-1])
+        print(" the generator", "stops again on its consistency check" if bad else "runs to the end")
+        return 1 if bad else 0
     go = run_go(d["kind"], lines, extra_env=d.get("env"))
     model = run_model(lines)
     for i, l in enumerate(lines):
